@@ -31,13 +31,13 @@ where
         let n = x.nrows();
         let mut classes = Vec::with_capacity(nclasses);
         let mut likelihood = Array2::zeros((nclasses, n));
-        joint_log_likelihood
-            .iter()
-            .enumerate()
-            .for_each(|(i, (&key, value))| {
-                classes.push(key.clone());
-                likelihood.row_mut(i).assign(value);
-            });
+        // enumerate the classes in sorted order so that exact ties are broken reproducibly
+        let mut entries = joint_log_likelihood.iter().collect::<Vec<_>>();
+        entries.sort_by(|a, b| a.0.cmp(b.0));
+        entries.into_iter().enumerate().for_each(|(i, (&key, value))| {
+            classes.push(key.clone());
+            likelihood.row_mut(i).assign(value);
+        });
 
         // Identify the class with the maximum log likelihood
         *y = likelihood.map_axis(Axis(0), |x| {
